@@ -623,18 +623,25 @@ func (st *AclState) applyAccountsAdd(ch *aclrecordproto.AclAccountsAdd, record *
 		if err != nil {
 			return err
 		}
-		st.accountStates[mapKeyFromPubKey(identity)] = AccountState{
-			PubKey:          identity,
-			Permissions:     AclPermissions(acc.Permissions),
-			Status:          StatusActive,
-			RequestMetadata: acc.Metadata,
-			KeyRecordId:     st.CurrentReadKeyId(),
-			PermissionChanges: []PermissionChange{
-				{
-					Permission: AclPermissions(acc.Permissions),
-					RecordId:   record.Id,
-				},
+		idKey := mapKeyFromPubKey(identity)
+		permissionChanges := []PermissionChange{
+			{
+				Permission: AclPermissions(acc.Permissions),
+				RecordId:   record.Id,
 			},
+		}
+		// an account that was a member before (e.g. removed and now added again) keeps its
+		// permission history, otherwise PermissionsAtRecord forgets what it could do at older records
+		if prev, exists := st.accountStates[idKey]; exists {
+			permissionChanges = append(prev.PermissionChanges, permissionChanges[0])
+		}
+		st.accountStates[idKey] = AccountState{
+			PubKey:            identity,
+			Permissions:       AclPermissions(acc.Permissions),
+			Status:            StatusActive,
+			RequestMetadata:   acc.Metadata,
+			KeyRecordId:       st.CurrentReadKeyId(),
+			PermissionChanges: permissionChanges,
 		}
 
 		// If the current account is the one being added, then decrypt the read key using its private key
